@@ -43,6 +43,7 @@ out += ['-----------------------------------------------------------------------
         'demo_test.go, notes.md, meta.json, replay.json}`.', '',
         '| seed | what the change does / what it needs to manifest | demo (clean / changed) | ./check verdict |',
         '|---|---|---|---|']
+stats = {'total': 0, 'concrete': 0, 'tie': 0, 'other': 0, 'missed': 0, 'strengthened': 0}
 for mp in sorted(glob.glob(os.path.join(ROOT, 'seeded', '*', 'meta.json'))):
     m = json.load(open(mp))
     sid = os.path.basename(os.path.dirname(mp))
@@ -68,6 +69,27 @@ for mp in sorted(glob.glob(os.path.join(ROOT, 'seeded', '*', 'meta.json'))):
     if m.get('remark'):
         verdict += ' — ' + m['remark']
     out.append('| %s | %s | %s | %s |' % (sid, what, demo, verdict))
+    stats['total'] += 1
+    if final and final[1]['detected']:
+        own = final[0] in ('full', 'corr')
+        if not own:
+            stats['other'] += 1
+        elif 'concrete' in final[1]['detected_by']:
+            stats['concrete'] += 1
+        else:
+            stats['tie'] += 1
+    else:
+        stats['missed'] += 1
+    if first and final and first['detected_by'] != final[1]['detected_by']:
+        stats['strengthened'] += 1
+out.append('')
+out.append('Totals: %(total)d seeded changes (rounds 1–3: four per property, varied; round 4: two more per property, '
+           'asked to be SUBTLE — changed defaults, per-client vs per-connection state, wrong receiver or lock kind, '
+           'closure capture, boundary sizes); reported with a concrete failing input by the property\'s own check: '
+           '%(concrete)d; reported by the own check through a broken proof/tie only (`no-failing-input-found`): %(tie)d; '
+           'reported (concretely) only by a neighbouring property\'s check: %(other)d; not reported: %(missed)d. '
+           '%(strengthened)d of them were missed or tie-only when first evaluated and led to a stronger generator, '
+           'oracle or tie (see the remarks).' % stats)
 out.append('')
 tail = os.path.join(ROOT, 'notes', 'DESIGN-tail.md')
 if os.path.exists(tail):
